@@ -202,6 +202,31 @@ def check_triple(data: dict, lab: Labels) -> None:
     for n, h in hashes:
         require(hash(n) == h, "hash-changed", type(n).__name__)
     lab.nontrivial = nontrivial
+    # ids are names, not content: a copy read back under other ids (hand-edited or written elsewhere)
+    # is still == to the tree it was made from
+    def rename(x: Any) -> None:
+        if isinstance(x, dict):
+            if "id" in x and "content_id" in x:
+                x["id"] = "renamed-" + str(x["id"])
+            for v in x.values():
+                rename(v)
+        elif isinstance(x, list):
+            for v in x:
+                rename(v)
+
+    try:
+        payload = a.as_dict()
+        rename(payload)
+        a2 = type(a).as_obj(payload)
+    except Exception:  # noqa: BLE001 - serialization is C04's business
+        lab.tag("renamed-copy-not-built")
+        return
+    if a2.content_id == a.content_id and a2 is not a:
+        lab.tag("renamed-ids-copy")
+        require(a2.id != a.id, "harness-renamed-ids", "")
+        require((a2 == a) is True and (a == a2) is True and (a2 != a) is False, "eq-vs-reference",
+                "a copy of a read back under other ids (same content, same origins at every position) is not == a")
+        a2.detach()
 
 
 def st_triple(ctx: Ctx):
@@ -249,6 +274,6 @@ def check_deep(data: dict, lab: Labels) -> None:
     lab.nontrivial = True
 
 
-PARTS = [Part("triples", check_triple, strategy=st_triple, quick=2000, thorough=100000),
+PARTS = [Part("triples", check_triple, strategy=st_triple, quick=8000, thorough=240000),
          Part("deep", check_deep, enumerate=enum_deep,
               exhaustive_note="4 chain shapes x depth 2x (thorough: and 4x) the recursion limit")]
